@@ -24,7 +24,7 @@ impl Property for C13 {
         }
     }
     fn required_classes(&self) -> Vec<&'static str> {
-        vec!["fail-at-ctor", "fail-at-checked-row", "fail-at-mid-clock-write", "dev:drop", "dev:add", "dev:duplicate", "dev:swap", "dev:substitute", "dev:rewidth", "dev:swap-in-place", "overriding-driver", "defaulting-driver", "row-after-deviation-checked", "probe-after-deviation-checked", "first-answer-without-entries", "another-iterator-with-another-layout-ran-before"]
+        vec!["fail-at-ctor", "fail-at-checked-row", "fail-at-mid-clock-write", "dev:drop", "dev:add", "dev:duplicate", "dev:swap", "dev:substitute", "dev:rewidth", "dev:swap-in-place", "dev:unknown-signal-added", "overriding-driver", "defaulting-driver", "row-after-deviation-checked", "probe-after-deviation-checked", "first-answer-without-entries", "another-iterator-with-another-layout-ran-before"]
     }
     fn run(&self, s: &Streams) -> CaseOut {
         let mut out = CaseOut::new();
@@ -32,6 +32,7 @@ impl Property for C13 {
         let mut cfg = expansion_cfg();
         cfg.allow_input_x = false;
         cfg.omit_cols = true;
+        cfg.max_x = 2;
         cfg.n_out = (1, 4);
         cfg.device_whiles = false;
         let mut dch = Ch::new(&s[2]);
@@ -46,6 +47,11 @@ impl Property for C13 {
         if dch.chance(1, 3) {
             cfg.max_virtual = 2;
             cfg.min_virtual = 1;
+        }
+        // a third of the tests hold rows with don't-care inputs: the order check applies to the answer given to every
+        // one of the rows such a row expands into, not to the first only
+        if dch.chance(1, 3) {
+            cfg.allow_input_x = true;
         }
         let mut built = gen_case(&mut Ch::new(&s[0]), &cfg);
         // every row statement carries a tag and two probe inputs `(P)` reading device outputs
@@ -131,8 +137,10 @@ impl Property for C13 {
             let n = spec.layout.len();
             let outs: Vec<usize> = (0..built.sigs.len()).filter(|i| built.sigs[*i].is_output()).collect();
             let p = if n == 0 { 0 } else { dch.upto(n) };
-            let dev = match if foreign && !outs.is_empty() { 7 } else if n == 0 { 1 } else { dch.upto(7) } {
-                7 => Deviation::ForeignReplaced(outs[dch.upto(outs.len())]),
+            let dev = match if foreign && !outs.is_empty() { 7 } else if n == 0 { 1 } else { dch.upto(8) } {
+                7 if foreign => Deviation::ForeignReplaced(outs[dch.upto(outs.len())]),
+                // (an answer that is longer than the first by an entry for a signal the test does not know)
+                7 => Deviation::AddForeign,
                 6 if n >= 2 => {
                     let mut q = dch.upto(n);
                     if q == p {
@@ -168,6 +176,7 @@ impl Property for C13 {
                 Deviation::Rewidth(_) => "dev:rewidth",
                 Deviation::SwapInPlace(..) => "dev:swap-in-place",
                 Deviation::ForeignReplaced(_) => "dev:unknown-signal-replaced",
+                Deviation::AddForeign => "dev:unknown-signal-added",
             });
             spec.deviate_at = Some((c, dev));
             // in half of the cases the same deviation happens again in the call of a later checked item: the caller
@@ -187,15 +196,22 @@ impl Property for C13 {
                 out.fail("c13:ctor-differs", format!("constructor outcome changed by a deviation at a later call: {:?}", real.ctor));
                 return out;
             }
+            // (an item that came back as an error keeps its place in its expansion: its tag is known from the vector the
+            // driver received in the call made for it)
             let tags_dev: Vec<Option<i64>> = real
                 .items
                 .iter()
-                .map(|it| match it {
-                    RealItem::Row(r) => match r.inputs.iter().find(|e| e.0 == "TAG").map(|e| e.1) {
+                .enumerate()
+                .map(|(i, it)| {
+                    let inputs = match it {
+                        RealItem::Row(r) => Some(&r.inputs),
+                        _ if real.log_len_before.get(i + 1).copied() == Some(real.log_len_before[i] + 1) => real.log.get(real.log_len_before[i]).map(|c| &c.inputs),
+                        _ => None,
+                    };
+                    match inputs.and_then(|v| v.iter().find(|e| e.0 == "TAG").map(|e| e.1)) {
                         Some(crate::model::InVal::Val(t)) => Some(t),
                         _ => None,
-                    },
-                    _ => None,
+                    }
                 })
                 .collect();
             let pos_dev = crate::probe::positions(&tags_dev, &rows);
@@ -254,7 +270,10 @@ impl Property for C13 {
             // item k + 1 starts a fresh evaluation): a probe `(P)` in it reads what the driver
             // reported for P - for that very signal - in the deviating call, never what it
             // reported for another signal.
-            if let (Some(RealItem::RuntimeErr(_)), Some(RealItem::Row(next))) = (real.items.get(k), real.items.get(k + 1)) {
+            // (with don't-care inputs: only if item k + 1 is the first item of its expansion - the others were evaluated
+            // together with the first, before the deviating call)
+            let fresh = matches!(pos_dev.get(k + 1).copied().flatten(), Some((_, 0)));
+            if let (Some(RealItem::RuntimeErr(_)), Some(RealItem::Row(next)), true) = (real.items.get(k), real.items.get(k + 1), fresh) {
                 let info = match next.inputs.iter().find(|e| e.0 == "TAG").map(|e| e.1) {
                     Some(crate::model::InVal::Val(t)) => rows.get(&((t - 1) as usize)),
                     _ => None,
